@@ -43,6 +43,8 @@ REWRITES = {
     # control that time (virtual clock) instead of the wall clock (seed C08d)
     "internal/monitor.go": [
         (r"\btime\.Now\(\)", "verifhook.Now()", 0),
+        # no time-out exists in the monitor today; one that is added is measured on the virtual clock (seed C08h)
+        (r"\btime\.After\(", "verifhook.After(", 0),
     ],
 }
 KEEPALIVE = {
